@@ -307,6 +307,51 @@ theorem substInf_fin (v : ℝ) (d : List (ℝ × ℝ)) : substInf v (fin d) = d 
     simp only [substInf, fin, List.map_cons, Option.getD_some] at ih ⊢
     rw [ih]
 
+/-! ### the two ends of the range are told apart: one bar gives 0, two or more give a positive value -/
+
+/-- **one bar has entropy exactly 0** (the lower end of `[0, log n]` at `n = 1`). -/
+theorem H_single (c : ℝ) (hc : 0 < c) : H [c] = 0 := by
+  have h := H_equal_lengths 1 c hc Nat.one_pos
+  simpa using h
+
+/-- **two or more bars of positive length have strictly positive entropy**: the value `0` is taken
+    only by a single bar, so a formula that loses the normalisation or drops all bars but one is
+    separated from the Shannon entropy on every barcode with `n ≥ 2`. -/
+theorem H_pos_of_two (l : List ℝ) (hp : ∀ x ∈ l, 0 < x) (hn : 2 ≤ l.length) : 0 < H l := by
+  match l, hp, hn with
+  | a :: b :: t, hp, _ =>
+    have hne : (a :: b :: t) ≠ [] := by simp
+    rw [H_eq_sum_negMulLog]
+    obtain ⟨h1, _⟩ := probs_facts (a :: b :: t) hne hp
+    have ha : 0 < a := hp a (by simp)
+    have hb : 0 < b := hp b (by simp)
+    have ht : 0 ≤ t.sum := List.sum_nonneg fun y hy => (hp y (by simp [hy])).le
+    have hL : 0 < (a :: b :: t).sum := sum_pos_of_pos _ hne hp
+    have hlt : a / (a :: b :: t).sum < 1 := by
+      rw [div_lt_one hL]; simp only [List.sum_cons]; linarith
+    have hpa : 0 < a / (a :: b :: t).sum := div_pos ha hL
+    have hhead : 0 < negMulLog (a / (a :: b :: t).sum) := by
+      unfold negMulLog
+      have := Real.log_neg hpa hlt
+      nlinarith
+    have hrest : 0 ≤ (((b :: t).map (· / (a :: b :: t).sum)).map negMulLog).sum := by
+      apply List.sum_nonneg
+      intro y hy
+      obtain ⟨p, hpm, rfl⟩ := List.mem_map.mp hy
+      obtain ⟨h0, h1'⟩ := h1 p (List.mem_cons_of_mem _ hpm)
+      exact negMulLog_nonneg h0.le h1'
+    rw [List.map_cons, List.map_cons, List.sum_cons]
+    linarith
+
+/-- the normalised variant is strictly positive as well for `n ≥ 2` -/
+theorem H_norm_pos (l : List ℝ) (hp : ∀ x ∈ l, 0 < x) (hn : 2 ≤ l.length) :
+    0 < H l / Real.log l.length := by
+  have hlog : 0 < Real.log l.length := by
+    apply Real.log_pos
+    have : (2 : ℝ) ≤ l.length := by exact_mod_cast hn
+    linarith
+  exact div_pos (H_pos_of_two l hp hn) hlog
+
 /-! ### non-vacuity: the hypotheses are met by concrete non-trivial barcodes -/
 
 example : (∀ x ∈ lengths [((0:ℝ), (1:ℝ)), (1, 3), (2, 7)], 0 < x) ∧ 2 ≤ (lengths [((0:ℝ), (1:ℝ)), (1, 3), (2, 7)]).length := by
